@@ -5,6 +5,7 @@ from props.common import *
 from props import dtfam
 
 ID = 'C03'
+GRAD_MODES = True
 PROPS_MODULE = 'Props.C03'
 THEOREMS = ['C03_colfilter', 'C03_coldfilt', 'C03_rowfilter', 'C03_rowdfilt', 'C03_q2c']
 VO = ['theories/Props/C03.vo', 'theories/Run/RunDtcwt.vo', 'theories/Run/RunSpec.vo']
